@@ -29,6 +29,7 @@ type c18Case struct {
 	Table  int      `json:"table"`
 	PutBuf bool     `json:"put_buf,omitempty"` // the "reuse the Put buffer" scenario instead
 	Via    string   `json:"via,omitempty"`     // ... through which writing call the buffer was passed
+	Tail   bool     `json:"tail,omitempty"`    // the entry under test is the last thing that fits into its (128-byte) table
 	RR     bool     `json:"rr,omitempty"`      // the "read-repair of a returned value" scenario instead
 	Async  bool     `json:"async,omitempty"`   // ... with asynchronous replication (R=2): the replication runs after the buffer was rewritten
 	// Pre: what happened to the store between the Put and the read that hands the value out
@@ -43,6 +44,9 @@ func (c c18Case) String() string {
 	}
 	if c.PutBuf {
 		return fmt.Sprintf("caller overwrites its Put buffer after %s returned (async replication: %v), via %s, table %d", c.Via, c.Async, c.Path, c.Table)
+	}
+	if c.Tail {
+		return fmt.Sprintf("entry at the very end of its table; value from %s via %s, then [%s], table %d", c.Handle, c.Path, strings.Join(c.Seq, " ; "), c.Table)
 	}
 	if len(c.Pre) > 0 {
 		return fmt.Sprintf("Put, then [%s], then value from %s via %s, then [%s], table %d", strings.Join(c.Pre, " ; "), c.Handle, c.Path, strings.Join(c.Seq, " ; "), c.Table)
@@ -87,6 +91,10 @@ func c18Cases(tier string) []c18Case {
 						continue
 					}
 					cs = append(cs, c18Case{Handle: h, Path: p, Seq: s, Table: t})
+					if t == 128 && (len(s) == 1 || tier == "thorough") {
+						// the same with the entry sitting at the very end of its table
+						cs = append(cs, c18Case{Handle: h, Path: p, Seq: s, Table: t, Tail: true})
+					}
 					// the same with the entry no longer in the active table when it is read
 					if t == 128 && (len(s) == 1 || tier == "thorough") {
 						for _, pre := range [][]string{{"fill"}, {"fill", "compact"}, {"churn"}} {
@@ -309,8 +317,32 @@ func c18Run(cs c18Case) (string, string) {
 		return "", ""
 	}
 	const orig = "original-1"
+	if cs.Tail {
+		// a neighbour in the same partition sized so that the entry under test (29 + len(key) + 10
+		// bytes) ends one byte before the 128-byte table does (the last position the engine accepts)
+		part := cl.PartID("d", key)
+		nk := cl.FindKey("n", func(k string) bool { return cl.PartID("d", k) == part })
+		pad := cs.Table - (29 + len(key) + len(orig)) - 29 - len(nk) - 1 // a table is full one byte before its end
+		if pad < 1 {
+			return "setup", "tail layout does not fit"
+		}
+		if err := ownerDM.Put(ctx, nk, []byte(strings.Repeat("P", pad))); err != nil {
+			return "setup", err.Error()
+		}
+	}
 	if err := ownerDM.Put(ctx, key, []byte(orig)); err != nil {
 		return "setup", err.Error()
+	}
+	if cs.Tail {
+		tables := 0
+		for _, f := range owner.DB.VerifDMap().VerifFragments() {
+			if f.Name == "dmap.d" && f.Kind == "primary" && f.PartID == cl.PartID("d", key) {
+				tables = len(f.Tables)
+			}
+		}
+		if tables != 1 {
+			return "setup", fmt.Sprintf("tail layout: the fragment has %d tables, the neighbour and the entry were meant to fill exactly one", tables)
+		}
 	}
 	fill := 0
 	churn := func() {
